@@ -212,6 +212,18 @@ reg(
     "DESIGN.md §3 C16",
 )
 
+reg(
+    "C03",
+    "exploration",
+    "differential testing of every generated output against an independent reference decoder written from the format documentation and the YAML",
+    "Every file written for generated projects and synths (C01/C02 strategies, all 42 types swept) is parsed by vlib.refcodec, which shares no "
+    "code with the library: structural rules of the documented format are enforced (tiling, order, widths, terminators, counts, record sizes) "
+    "and the decoded content must equal the object's public snapshot field by field - this is what exposes errors made symmetrically in "
+    "writer and reader.",
+    "The decoder's residual trust base (SFGS/SLnK, sampler record structs) is listed in the evidence assumptions.",
+    "DESIGN.md §3 C03",
+)
+
 NOT_APPLICABLE = {}
 
 ALL = ["C%02d" % i for i in range(1, 21)]
